@@ -105,7 +105,7 @@ NumFmtCases == {[fam |-> "numfmt", x |-> d, e |-> FA("number_format", X, a)] : d
 \* depend on the Go type that carries the zero (all kinds must agree with each other)
 NumKinds == {"i8", "i64", "u16", "u64", "f32", "def"}
 KindLists == {VL(<<VN(VI(3), k), VN(VI(20), k), VN(VI(1), k)>>) : k \in NumKinds}
-             \cup {VLg(<<VI(3), VI(20), VI(1)>>, g) : g \in {"i64s", "f32s", "ints"}} \cup {VL(<<VI(3), VI(20), VI(1)>>), VL(<<VI(3), VN(VI(20), "u16"), VN(VI(1), "i8")>>)}
+             \cup {VLg(<<VI(3), VI(20), VI(1)>>, g) : g \in {"i64s", "f32s", "f64s", "ints"}} \cup {VL(<<VI(3), VI(20), VI(1)>>), VL(<<VI(3), VN(VI(20), "u16"), VN(VI(1), "i8")>>)}
 Zeros == {VI(0), VD(0, 0), VN(VD(0, 0), "def")} \cup {VN(VI(0), k) : k \in NumKinds}
 KindCases == {[fam |-> "kinds", what |-> w] : w \in {"sort", "zero", "zerocomputed"}}
 KindCaseOf(c) ==
@@ -129,11 +129,24 @@ KindCaseOf(c) ==
 \* several list arguments at once
 MultiMerge == {[fam |-> "list", x |-> VL(l), e |-> FA("merge", X, <<Arr(<<LI(7), LI(8)>>), Arr(<<LI(6)>>)>>)] : l \in IntLists(MaxList)}
               \cup {[fam |-> "list", x |-> VL(l), e |-> FA("merge", X, <<X, Arr(<<>>), Arr(<<LI(6)>>)>>)] : l \in IntLists(MaxList)}
-AllCases == JoinSplitCases \cup NumFmtCases \cup DecCases \cup MultiMerge \cup StrCases \cup RevCases \cup IdemCases \cup ListCases \cup LoopCases \cup SliceCases \cup DefaultCases \cup MapCases \cup NumCases
+\* merge (filter and function) makes a new list: the lists it was given -- a slice of a longer list, a list that is merged
+\* onto twice -- keep their elements
+JJ(e) == PrintS(FA("join", e, <<LS(<<44>>)>>))
+Bar == Text(<<124>>)
+ABC == Arr(<<LS(<<97>>), LS(<<98>>), LS(<<99>>)>>)
+Progs == [ slicebase  |-> <<Set("items", ABC), Set("m", Call("merge", <<FA("slice", Var("items"), <<LI(0), LI(1)>>), Arr(<<LS(<<120>>)>>)>>)), JJ(Var("items")), Bar, JJ(Var("m"))>>,
+           slicefilt  |-> <<Set("items", ABC), Set("m", FA("merge", FA("slice", Var("items"), <<LI(0), LI(1)>>), <<Arr(<<LS(<<120>>)>>)>>)), JJ(Var("items")), Bar, JJ(Var("m"))>>,
+           twomerge   |-> <<Set("a", Call("merge", <<X, Arr(<<LI(8)>>)>>)), Set("b", Call("merge", <<X, Arr(<<LI(9)>>)>>)), JJ(Var("a")), Bar, JJ(Var("b")), Bar, JJ(X)>>,
+           twomergef  |-> <<Set("a", FA("merge", X, <<Arr(<<LI(8)>>)>>)), Set("b", FA("merge", X, <<Arr(<<LI(9)>>)>>)), JJ(Var("a")), Bar, JJ(Var("b")), Bar, JJ(X)>>,
+           mergeslice |-> <<Set("m", Call("merge", <<FA("slice", X, <<LI(0), LI(2)>>), FA("slice", X, <<LI(1)>>), X>>)), JJ(Var("m")), Bar, JJ(X)>>,
+           threefn    |-> <<JJ(Call("merge", <<X, X, Arr(<<LI(6)>>)>>)), Bar, JJ(Call("merge", <<Arr(<<>>), X>>)), Bar, JJ(X)>> ]
+ProgCases == {[fam |-> "prog", x |-> v, e |-> X, p |-> p] : p \in DOMAIN Progs,
+                v \in {VL(<<VI(1), VI(2), VI(3)>>), VLg(<<VI(1), VI(2), VI(3)>>, "anycap"), VLg(<<VI(1), VI(2), VI(3)>>, "ints"), VL(<<>>)}}
+AllCases == ProgCases \cup JoinSplitCases \cup NumFmtCases \cup DecCases \cup MultiMerge \cup StrCases \cup RevCases \cup IdemCases \cup ListCases \cup LoopCases \cup SliceCases \cup DefaultCases \cup MapCases \cup NumCases
 
 RECURSIVE UsesX(_)
 UsesX(e) == e = X \/ (e.k = "filt" /\ (UsesX(e.e) \/ \E i \in 1..Len(e.args) : UsesX(e.args[i])))
-Prog(c) == IF c.fam = "loopcount" THEN CountLoopE(c.e) ELSE IF c.fam \in {"dec", "numfmt"} THEN <<PrintS(c.e)>> ELSE Obs(c.e)
+Prog(c) == IF c.fam = "prog" THEN Progs[c.p] ELSE IF c.fam = "loopcount" THEN CountLoopE(c.e) ELSE IF c.fam \in {"dec", "numfmt"} THEN <<PrintS(c.e)>> ELSE Obs(c.e)
 Ctx(c) == IF (c.fam = "default" /\ c.e.e.k = "var" /\ c.e.e.n = "undefinedvar") \/ (c.fam = "loopcount" /\ c.x = Null /\ c.e # X /\ ~UsesX(c.e)) THEN EmptyFn ELSE ("x" :> c.x)
 Ref(c) == Render(MkW(("main" :> Prog(c)), {}, {}, NoFault), "main", Ctx(c))
 
@@ -150,13 +163,13 @@ CaseOfIdem(c) ==
 CaseOf(c) ==
     LET ref == Ref(c) IN
     [prop |-> "C19", key |-> ToJson(c),
-     tags |-> {"fam:" \o c.fam, "xt:" \o c.x.t} \cup ExprTags(c.e)
+     tags |-> {"fam:" \o c.fam, "xt:" \o c.x.t} \cup ExprTags(c.e) \cup (IF c.fam = "prog" THEN {"p:" \o c.p} ELSE {})
               \cup (IF c.x.t \in {"list", "map"} THEN {"g:" \o c.x.g} ELSE {}),
      entry |-> "main", ctx |-> Ctx(c),
      runs |-> {[label |-> c.fam, tp |-> ("main" :> Source(Prog(c), LMin)), xcalls |-> [id \in {} |-> 0]]},
      expect |-> [ok |-> ref.ok, out |-> ref.out, err |-> ref.err, calls |-> [id \in {} |-> 0]]]
 
-Fams == {"str", "idem", "list", "loopcount", "slice", "default", "map", "num", "dec", "numfmt", "joinsplit", "kinds"}
+Fams == {"prog", "str", "idem", "list", "loopcount", "slice", "default", "map", "num", "dec", "numfmt", "joinsplit", "kinds"}
 Init == cs \in {[part |-> f] : f \in Fams}
 Next == "part" \in DOMAIN cs /\ cs' \in IF cs.part = "kinds" THEN KindCases ELSE {c \in AllCases : c.fam = cs.part /\ Ref(c).err # "frag"}
 Spec == Init /\ [][Next]_cs
